@@ -43,6 +43,9 @@ def logic_setter_obligation(ctx):
             if name == 'logic': return Holder(Rules=R_)
             if name == 'argument': return None
             if name == 'opts': return {'auto_build_trunk': True}
+            from pyvc.interp import private_helper
+            ok_, v_ = private_helper(it, Tableau, name, s)
+            if ok_: return v_
             raise Outside(name)
         def sym_setattr(s, it, name, v): s.logic_set = v
     from pytableaux.logics import registry
